@@ -4,7 +4,7 @@
 From Coq Require Import ZArith List Bool.
 From RV Require Import Lib.Wrap Gen.Consts Gen.Serial Gen.Sctp Model.SctpRecv
      Proofs.SctpRecvBase Proofs.SctpRecvRefine Proofs.SctpSendSpec Proofs.SctpTheorems
-     Proofs.DcepProofs Proofs.OpenCloseProofs.
+     Proofs.DcepProofs Proofs.OpenCloseProofs Proofs.ReconfigProofs.
 Import ListNotations.
 Open Scope Z_scope.
 
@@ -90,6 +90,48 @@ Theorem C12_dup_open_no_second_channel : forall a sid d o ch,
   (exists tl, d = DCEP_TYPE_OPEN :: tl) ->
   handle_dcep a sid d = (a, [TxDcep sid [DCEP_TYPE_ACK]], true).
 Proof. exact dup_open_no_second_channel. Qed.
+
+(* RE-CONFIG outgoing SSN reset (what the peer's close_data_channel sends).  The parameter walk of
+   handle_reconfig yields, for a request encoded with its zero padding, exactly one parameter: the
+   request WITHOUT the padding ... *)
+Theorem C12_reconfig_walk : forall rsn rsp tsn ids,
+  16 + 2 * Z.of_nat (length ids) < 65536 ->
+  reconfig_params (length (encode_ssn_reset rsn rsp tsn ids)) (encode_ssn_reset rsn rsp tsn ids) =
+  [(RECONFIG_PARAM_OUTGOING_SSN_RESET, reset_body rsn rsp tsn ids)].
+Proof. exact walk_encoded. Qed.
+
+(* ... so a reset request for the stream list L touches only the streams of L (frame property):
+   association state, reorder queue, window, channels and their states are unchanged, only a
+   RE-CONFIG response is emitted, every stream outside L keeps its ordering state (next SSN and
+   pending messages), streams of L are reset (new request) or left alone (repeated request).
+   Any length of L, odd or even (2-byte padding or none). *)
+Theorem C12_reconfig_frame : forall st rsn rsp tsn ids,
+  16 + 2 * Z.of_nat (length ids) < 65536 -> 0 <= rsn < 4294967296 ->
+  Forall (fun x => 0 <= x < 65536) ids -> ids <> [] ->
+  let r := step st (IReconfig (encode_ssn_reset rsn rsp tsn ids)) in
+  same_but_streams st (fst r) /\ only_ctl (snd r) /\
+  (forall sid, ~ In sid ids -> sm_find sid (a_streams (r_app (fst r))) = sm_find sid (a_streams (r_app st))) /\
+  (forall sid, In sid ids ->
+     sm_find sid (a_streams (r_app (fst r))) = sm_find sid (a_streams (r_app st)) \/
+     sm_find sid (a_streams (r_app (fst r))) = None).
+Proof. exact reset_frame. Qed.
+
+(* every RE-CONFIG chunk whatsoever (any bytes) leaves everything but the stream table alone *)
+Theorem C12_reconfig_any_bytes : forall st v,
+  same_but_streams st (fst (handle_reconfig st v)) /\ only_ctl (snd (handle_reconfig st v)).
+Proof. exact handle_reconfig_frame. Qed.
+
+(* non-vacuity: the peer closes stream 5 (one id + 2 padding bytes); the ordered channel on stream
+   0 keeps delivering in order with its SSN sequence *)
+Theorem C12_reconfig_example :
+  let chans := [mkChan 0 true true [] [] None None DataChannelState_Open []; mkChan 5 true true [] [] None None DataChannelState_Open []] in
+  let r := run (est_r 999 chans)
+               [IData (D 1000 3 0 0 53 [97]); IData (D 1001 3 5 0 53 [120]);
+                IReconfig (encode_ssn_reset 0 0 1002 [5]); IData (D 1002 3 0 1 53 [98])] in
+  log_of 0 (snd r) = [[97]; [98]] /\ is_next (sm_get 0 (a_streams (r_app (fst r)))) = 2 /\
+  sm_find 5 (a_streams (r_app (fst r))) = None /\
+  encode_ssn_reset 0 0 1002 [5] = [0; 13; 0; 18; 0; 0; 0; 0; 0; 0; 0; 0; 0; 0; 3; 234; 0; 5; 0; 0].
+Proof. exact close_other_stream_keeps_stream0. Qed.
 
 (* ---- listed findings: model witnesses (replayed on the implementation by harness c12) ---- *)
 
